@@ -97,19 +97,42 @@ pub fn value_by_idx(i: usize) -> HResult<MValue> {
     value_palette().get(i).cloned().ok_or_else(|| crate::trace::HarnessError(format!("value palette index {} out of range", i)))
 }
 
+/// A header argument is either a palette index (int) or the reference CBOR encoding of an
+/// arbitrary header produced by the traffic generator.
+pub fn header_from_arg(step: &Step, i: usize) -> HResult<MHeader> {
+    match step.args.get(i) {
+        Some(Arg::I(_)) => header_by_idx(step.usize(i)?),
+        Some(Arg::B(b)) => {
+            let it = crate::refcbor::read_exact(b).map_err(|e| crate::trace::HarnessError(format!("header argument is not CBOR: {:?}", e)))?;
+            MHeader::from_item(&it).ok_or_else(|| crate::trace::HarnessError("header argument has a shape the harness does not model".into()))
+        }
+        other => herr(format!("step {}: arg {} should be a header, got {:?}", step.name, i, other)),
+    }
+}
+
+pub fn gen_header_arg(rng: &mut Rng) -> Arg {
+    if rng.chance(1, 4) {
+        let h = crate::traffic::gen_header(rng, &crate::traffic::GenCfg::small(), 0);
+        let bytes = crate::refcbor::encode(&h.to_item());
+        // only descriptors that survive the trip through the trace unchanged are used
+        if let Ok(it) = crate::refcbor::read_exact(&bytes) {
+            if MHeader::from_item(&it).as_ref() == Some(&h) {
+                return Arg::B(bytes);
+            }
+        }
+    }
+    Arg::I(pick_header_idx(rng) as i128)
+}
+
 /// Signature descriptor as three args: protected header idx, unprotected header idx, signature bytes.
 pub fn gen_sig_args(rng: &mut Rng) -> Vec<Arg> {
-    vec![
-        Arg::I(pick_header_idx(rng) as i128),
-        Arg::I(pick_header_idx(rng) as i128),
-        Arg::B(bytes_palette()[pick_small_bytes_idx(rng)].clone()),
-    ]
+    vec![gen_header_arg(rng), gen_header_arg(rng), Arg::B(bytes_palette()[pick_small_bytes_idx(rng)].clone())]
 }
 
 pub fn sig_from_args(step: &Step, at: usize) -> HResult<MSignature> {
     Ok(MSignature {
-        protected: MProtected::built(header_by_idx(step.usize(at)?)?),
-        unprotected: header_by_idx(step.usize(at + 1)?)?,
+        protected: MProtected::built(header_from_arg(step, at)?),
+        unprotected: header_from_arg(step, at + 1)?,
         signature: step.bytes(at + 2)?.to_vec(),
     })
 }
@@ -118,8 +141,8 @@ pub fn sig_from_args(step: &Step, at: usize) -> HResult<MSignature> {
 /// nested (0 = none, 1 = one nested recipient with empty headers and ciphertext h'4e').
 pub fn gen_recipient_args(rng: &mut Rng) -> Vec<Arg> {
     vec![
-        Arg::I(pick_header_idx(rng) as i128),
-        Arg::I(pick_header_idx(rng) as i128),
+        gen_header_arg(rng),
+        gen_header_arg(rng),
         if rng.chance(1, 4) { Arg::S("none".into()) } else { Arg::B(bytes_palette()[pick_small_bytes_idx(rng)].clone()) },
         Arg::I(if rng.chance(1, 4) { 1 } else { 0 }),
     ]
@@ -128,8 +151,8 @@ pub fn gen_recipient_args(rng: &mut Rng) -> Vec<Arg> {
 pub fn recipient_from_args(step: &Step, at: usize) -> HResult<MRecipient> {
     let nested = step.int(at + 3)?;
     Ok(MRecipient {
-        protected: MProtected::built(header_by_idx(step.usize(at)?)?),
-        unprotected: header_by_idx(step.usize(at + 1)?)?,
+        protected: MProtected::built(header_from_arg(step, at)?),
+        unprotected: header_from_arg(step, at + 1)?,
         ciphertext: opt_bytes_from(step, at + 2)?,
         recipients: if nested == 1 {
             vec![MRecipient { ciphertext: Some(vec![0x4e]), ..Default::default() }]
